@@ -35,6 +35,7 @@ type simThread struct {
 	blockedOn interface{}
 	inOp      bool
 	fn        func(th *simThread)
+	progress  int // preemption points passed (lock-step policy)
 }
 
 type mState struct {
@@ -83,6 +84,7 @@ type schedSim struct {
 	noAccessTracking bool
 	sinceSwitch      int
 	livelock         bool
+	lockstep         int // 0: drawn preemption; 1: lock-step at every point; n>1: lock-step, skipped with probability 1/n
 }
 
 func newSchedSim(c *core.Ctx, preemptDen uint64) *schedSim {
@@ -200,6 +202,7 @@ func (s *schedSim) yield(site int) {
 	}
 	s.yields++
 	s.sinceSwitch++
+	me.progress++
 	if s.yields > 40_000_000 {
 		// every thread has had its turns (see the fairness rule below) and still nothing finishes
 		s.c.Violate("progress", s.c.Property+"/no-progress/threads-spin-forever", "40 million preemption points passed without the simulated threads finishing, under a fair schedule: the operations do not terminate (livelock)")
@@ -226,6 +229,22 @@ func (s *schedSim) yield(site int) {
 			}
 		}
 		s.c.Fault("forced-deschedule")
+	} else if s.lockstep > 0 {
+		// lock-step policy: at a preemption point (always, or with probability 1/lockstep... see below) run the
+		// runnable thread that has made the least progress, so that all threads move through the same code
+		// together: windows that need MANY threads inside them at once are met on purpose, not by luck
+		if s.lockstep > 1 && s.c.T.Draw(uint64(s.lockstep)) == 0 {
+			return
+		}
+		next = nil
+		for _, th := range s.threads {
+			if th != me && th.state == thRunnable && (next == nil || th.progress < next.progress) {
+				next = th
+			}
+		}
+		if next == nil || next.progress > me.progress {
+			return
+		}
 	} else {
 		if s.den <= 1 {
 			return
